@@ -46,7 +46,7 @@ def natOfDigits (ds : List Char) : Nat := ds.foldl (fun a c => a * 10 + (c.toNat
 def lowerAscii (c : Char) : Char := if 'A' ≤ c && c ≤ 'Z' then Char.ofNat (c.toNat + 32) else c
 
 /-- Rust `f64::from_str` -/
-def parseFloatImpl (s : List Char) : Option Float :=
+def parseFloatRaw (s : List Char) : Option Float :=
   let (neg, rest) : Bool × List Char :=
     match s with
     | '-' :: r => (true, r)
@@ -93,6 +93,13 @@ def parseFloatImpl (s : List Char) : Option Float :=
           if mag > 400 then some (Float.ofBits (signBit ||| 0x7ff0000000000000))
           else if mag < -400 then some (Float.ofBits signBit)
           else some (Float.ofBits (signBit ||| decToF64Bits m e10))
+
+/-- the float reader of the literal parser: `f64::from_str` followed by the finiteness guard of parse_number_internal
+(`nan`, `inf`, `infinity` and overflowing exponents are accepted by from_str but rejected as literals) -/
+def parseFloatImpl (s : List Char) : Option Float :=
+  match parseFloatRaw s with
+  | some v => if v.isFinite then some v else none
+  | none => none
 
 /-! ### token fields (same format as the PARSE suite; kept local so that this file does not depend on ParseDrv) -/
 
